@@ -75,26 +75,61 @@ Proof. exact marked_needed_recovered_lemma. Qed.
 Print Assumptions marked_needed_recovered.
 
 (* Two-phase delete, across runs.  A non-instant run lists every pack it decides to mark (MarkDelete, or
-   Repack after copying the used blobs) in `packs_to_delete` with the time of THIS run, and a pack it
+   Repack after copying the used blobs) in `packs_to_delete` with a time that is NOT EARLIER than this run's plan
+   time and not later than the moment the index holding the mark is finalized, and a pack it
    leaves marked (KeepMarked) stays in `packs_to_delete` with its OLD mark time.  With
    only_unused_removed (a later run removes a pack only when the mark time it reads satisfies
    mark_time + keep_delete <= now) a marked pack stays available for at least keep_delete after the
    run that marked it, and marked_needed_recovered brings it back when it is needed again. *)
+Theorem fresh_marks_not_before_run_time : forall dec packer nid o fs used existing pl p,
+  plan_with dec o fs used existing = inr pl -> o_instant o = false -> (o_now o <= o_rel o)%Z ->
+  In p (pl_packs pl) -> pp_todo p = MarkDelete \/ pp_todo p = Repack ->
+  exists f e t, In f (out_index (execute packer nid o fs pl)) /\ In e (f_del f)
+              /\ p_id e = pp_id p /\ p_blobs e = pp_blobs p /\ p_time e = Some t /\ (o_now o <= t <= o_rel o)%Z.
+Proof. exact fresh_marks_not_before_lemma. Qed.
+Print Assumptions fresh_marks_not_before_run_time.
+
+(* ... and exactly which time: the plan time when the source stamps marks directly, the release time (o_rel: the
+   clock right before the index holding the marks is finalized) when the indexer holds the marks back and
+   re-stamps them (Extracted.marks_restamped, regenerated from prune.rs / indexer.rs). *)
+Theorem fresh_marks_carry_mark_time : forall dec packer nid o fs used existing pl p,
+  plan_with dec o fs used existing = inr pl -> o_instant o = false ->
+  In p (pl_packs pl) -> pp_todo p = MarkDelete \/ pp_todo p = Repack ->
+  exists f e, In f (out_index (execute packer nid o fs pl)) /\ In e (f_del f)
+              /\ p_id e = pp_id p /\ p_blobs e = pp_blobs p /\ p_time e = Some (mark_time o).
+Proof. exact fresh_marks_timed_lemma. Qed.
+Print Assumptions fresh_marks_carry_mark_time.
+
 Theorem fresh_marks_carry_run_time : forall dec packer nid o fs used existing pl p,
+  marks_restamped = false ->
   plan_with dec o fs used existing = inr pl -> o_instant o = false ->
   In p (pl_packs pl) -> pp_todo p = MarkDelete \/ pp_todo p = Repack ->
   exists f e, In f (out_index (execute packer nid o fs pl)) /\ In e (f_del f)
               /\ p_id e = pp_id p /\ p_blobs e = pp_blobs p /\ p_time e = Some (o_now o).
-Proof. exact fresh_marks_timed_lemma. Qed.
+Proof. exact fresh_marks_plan_time_lemma. Qed.
 Print Assumptions fresh_marks_carry_run_time.
 
+(* a mark carried over from an earlier run keeps its time (it can only move forward, to the release time, in the
+   corner case that it equals this run's plan time to the nanosecond and the source re-stamps) *)
 Theorem kept_marks_keep_their_time : forall dec packer nid o fs used existing pl p t,
   plan_with dec o fs used existing = inr pl -> o_instant o = false ->
   In p (pl_packs pl) -> pp_todo p = KeepMarked -> pp_time p = Some t ->
-  exists f e, In f (out_index (execute packer nid o fs pl)) /\ In e (f_del f)
-              /\ p_id e = pp_id p /\ p_blobs e = pp_blobs p /\ p_time e = Some t.
+  exists f e t', In f (out_index (execute packer nid o fs pl)) /\ In e (f_del f)
+              /\ p_id e = pp_id p /\ p_blobs e = pp_blobs p /\ p_time e = Some t'
+              /\ (t <> o_now o -> t' = t) /\ ((o_now o <= o_rel o)%Z -> (t <= t')%Z) /\ (marks_restamped = false -> t' = t).
 Proof. exact kept_marks_keep_time_lemma. Qed.
 Print Assumptions kept_marks_keep_their_time.
+
+(* keep-delete counts from the mark, whatever time >= the marking run the mark carries: a run without
+   instant-delete removes a pack only if the index it reads lists the pack as marked with a time t such that, for
+   EVERY run time now1 <= t (in particular the run that wrote the mark), now1 + keep_delete <= now of this run. *)
+Theorem marked_packs_survive_keep_delete : forall dec packer nid o fs used existing pl out,
+  prune_with dec packer nid o fs used existing = inr (pl, out) -> o_instant o = false ->
+  forall i, In i (out_removed out) ->
+    exists f p t, In f fs /\ In p (f_del f) /\ p_id p = i /\ p_time p = Some t
+                  /\ forall now1, (now1 <= t)%Z -> (now1 + o_keep_delete o <= o_now o)%Z.
+Proof. exact survive_keep_delete_lemma. Qed.
+Print Assumptions marked_packs_survive_keep_delete.
 
 (* decide_repack (max_repack, max_unused, no_resize, ordering, resize packs) only ever answers Keep or
    Repack for a candidate, and applying ANY answer list touches only candidates (Keep / Repack, or
